@@ -71,7 +71,7 @@ def fragment(rng, natoms=None, unsupported=False, collide=False, lrng=None, labe
     bonds = []
     for i in range(1, natoms):
         j = rng.randrange(i)
-        tgt = labels[j] if not (collide and rng.random() < 0.3) else 'undefined_label'
+        tgt = labels[j] if not (collide and rng.random() < 0.3) else rng.choice(['undefined_label', labels[i]])
         parts.append('%s labeled %s %s bond to %s%s%s' % (atomtype(rng, True), labels[i], rng.choice(BONDS), tgt, w(False),
                                                         constraints(rng, unsupported)))
         bonds.append((i, j))
@@ -102,6 +102,8 @@ RULES = [
 def malformed(rng, text):
     k = rng.random()
     toks = text.replace('{', ' { ').replace('}', ' } ').split(' ')
+    if k < 0.08:
+        return text + rng.choice(TAILS) + rng.choice(['junk', 'x', '}', ' C labeled q'])
     if k < 0.2:
         return text[:rng.randrange(len(text) + 1)]
     if k < 0.4 and len(toks) > 1:
@@ -118,11 +120,12 @@ def malformed(rng, text):
         return ' '.join(toks)
     if k < 0.85:
         i = rng.randrange(len(text) + 1)
-        return text[:i] + rng.choice(['x', '{', '}', ' ', '\n', '9', ',', '²', 'é', 'Ω', '٣', '_', '$', '\x00', '  labeled ']) + text[i:]
+        return text[:i] + rng.choice(['x', '{', '}', ' ', '\n', '9', ',', '²', 'é', 'Ω', '٣', '_', '$', '\x00', '  labeled '] + TAILS) + text[i:]
     n = rng.randint(0, 25)
     return ''.join(rng.choice(list('fragment a{C labeled c1}$?+-.:!<>=0123456789 \n\t') + ['é', '²', '٣']) for _ in range(n))
 
 
+TAILS = ['\r', '\x0b', '\x0c', '\x1c', '\x85', '\xa0', '\u2003', '\u2028', '\u3000', '\r\n']
 FIXED = ['', ' ', '\n\n', 'fragment', 'fragment a', 'fragment a{', 'fragment a{C', 'fragment a{C labeled', 'fragment a{C labeled c1',
          'fragment a{C labeled c1}', 'fragment a{C labeled c1} x', 'fragment a{C labeled c1}}', 'fragment a{C labeled c1} fragment b{C labeled c1}',
          'fragment a{c labeled c1}', 'fragment a{c? labeled c1}', 'fragment a{Xx labeled c1}', 'fragment a{C labeled c1 {connected to group x}}',
@@ -140,8 +143,94 @@ FIXED = ['', ' ', '\n\n', 'fragment', 'fragment a', 'fragment a{', 'fragment a{C
          'fragment a{C labeled c1 C labeled c2 double bond to c1 stereo double bond c1 cis to c2 for double bond between c1 and c2}']
 
 
+FIXED += ['fragment a{C labeled c1 C labeled c2 single bond to c1}%sjunk' % t for t in TAILS]
+FIXED += ['fragment a{C labeled c1}%s' % t for t in TAILS]
+FIXED += ['fragment a{C labeled c1 C labeled c2 %s bond to c2}' % b for b in BONDS[1:]]
+FIXED += ['fragment a{C labeled c1 C labeled c2 single bond to c1 C labeled c3 double bond to c3}',
+          'fragment a{C labeled c1 C labeled c2 single bond to c1 ringbond c1 single bond to c2}',
+          'fragment a{C labeled c1 ringbond c1 single bond to c1}']
+
+
 def long_chain(n):
     s = 'fragment a{C labeled c0'
     for i in range(1, n):
         s += ' C labeled c%d single bond to c%d' % (i, i - 1)
     return s + '}'
+
+
+# ---------- reaction rules (C16) ----------
+def rule(rng, balanced=True):
+    """unimolecular rule: a reactant fragment of 1..4 atoms and a sequence of edits.
+    Returns (text, meta).  Balanced edit sets are composed from electron-neutral
+    building blocks; unbalanced ones drop or add one half of a block."""
+    n = rng.choice([1, 2, 2, 3, 3, 4])
+    syms = [rng.choice(['C', 'C', 'C', 'O', 'H', 'N', 'C.', 'O.', 'C?', 'X?']) for _ in range(n)]
+    labels = ['a%d' % i for i in range(n)]
+    bonds = {}
+    parts = ['%s labeled %s' % (syms[0], labels[0])]
+    for i in range(1, n):
+        j = rng.randrange(i)
+        bt = rng.choice(['single', 'single', 'single', 'double', 'triple', 'any'])
+        bonds[(j, i)] = bt
+        parts.append('%s labeled %s %s bond to %s' % (syms[i], labels[i], bt, labels[j]))
+    edits = []
+    blocks = []
+    pairs = list(bonds)
+    for _ in range(rng.choice([1, 1, 2, 3])):
+        k = rng.random()
+        if pairs and k < 0.3:
+            (i, j) = rng.choice(pairs)
+            bt = bonds[(i, j)]
+            if bt in ('single', 'double', 'triple'):
+                order = {'single': 1, 'double': 2, 'triple': 3}[bt]
+                decl = '' if bt == 'single' and rng.random() < 0.5 else bt + ' '
+                blocks.append(['break %sbond (%s,%s)' % (decl, labels[i], labels[j])]
+                              + ['increase number of radical (%s)' % labels[i]] * order + ['increase number of radical (%s)' % labels[j]] * order)
+                pairs.remove((i, j))
+            else:
+                blocks.append(['break bond (%s,%s)' % (labels[i], labels[j])])
+        elif pairs and k < 0.5:
+            (i, j) = rng.choice(pairs)
+            blocks.append(['increase bond order (%s,%s)' % (labels[i], labels[j]), 'decrease number of radical (%s)' % labels[i],
+                           'decrease number of radical (%s)' % labels[j]])
+        elif pairs and k < 0.65:
+            (i, j) = rng.choice(pairs)
+            blocks.append(['decrease bond order (%s,%s)' % (labels[i], labels[j]), 'increase number of radical (%s)' % labels[i],
+                           'increase number of radical (%s)' % labels[j]])
+        elif n >= 2 and k < 0.8:
+            i, j = rng.sample(range(n), 2)
+            if (min(i, j), max(i, j)) not in bonds:
+                bt = rng.choice(['', 'single ', 'double '])
+                order = 2 if bt == 'double ' else 1
+                blocks.append(['form %sbond (%s,%s)' % (bt, labels[i], labels[j])] + ['decrease number of radical (%s)' % labels[i]] * order
+                              + ['decrease number of radical (%s)' % labels[j]] * order)
+        elif k < 0.9:
+            i = rng.randrange(n)
+            blocks.append(['increase formal charge (%s)' % labels[i], 'increase number of radical (%s)' % labels[i],
+                           'decrease number of radical (%s)' % labels[i], 'decrease formal charge (%s)' % labels[i]])
+        else:
+            i = rng.randrange(n)
+            blocks.append(['increase formal charge (%s)' % labels[i], 'decrease number of radical (%s)' % labels[i]])
+    if pairs and rng.random() < 0.15:
+        (i, j) = rng.choice(pairs)
+        if bonds[(i, j)] in ('single', 'double'):
+            new = 'double' if bonds[(i, j)] == 'single' else 'single'
+            d = 1 if new == 'double' else -1
+            blocks.append(['modify bond (%s,%s,%s)' % (labels[i], labels[j], new)]
+                          + [('decrease' if d > 0 else 'increase') + ' number of radical (%s)' % labels[i],
+                             ('decrease' if d > 0 else 'increase') + ' number of radical (%s)' % labels[j]])
+    for b in blocks:
+        edits += b
+    if not edits:
+        edits = ['increase formal charge (%s)' % labels[0], 'decrease formal charge (%s)' % labels[0]]
+    if not balanced:
+        k = rng.random()
+        if k < 0.5 and len(edits) > 1:
+            del edits[rng.randrange(len(edits))]
+        elif k < 0.8:
+            edits.append(rng.choice(['increase number of radical (%s)', 'decrease formal charge (%s)', 'increase formal charge (%s)']) % rng.choice(labels))
+        else:
+            edits.append('break bond (%s,%s)' % (labels[0], 'nolabel'))
+    rng.shuffle(edits) if rng.random() < 0.3 else None
+    text = 'rule r%d{ reactant m{ %s } %s }' % (rng.randint(1, 99), ' '.join(parts), ' '.join(edits))
+    return text
